@@ -1,6 +1,7 @@
 (** extraction of the C04 model: specifications (canonical exact rationals) and as-is transcriptions *)
 Require Import FastZ.
-From Dashu Require Import Base.Prelude Int.BitsSpec Ratio.RatArithModel.
+From Dashu Require Import Base.Prelude Int.BitsSpec Ratio.RatArithModel Ratio.RatioAtoms Ratio.RatioBodiesModel Ratio.Reduce2WordsModel.
+From DashuGen Require Import RatioBodies.
 Extraction "model.ml"
   canon invb veqb
   bin_spec dive_spec divreme_spec un_spec pow_spec int_spec mulsign_spec
@@ -10,4 +11,9 @@ Extraction "model.ml"
   from_parts_asis from_parts_signed_asis from_parts_const_asis parse_asis xparse_asis
   trunc_asis floor_asis ceil_asis round_asis split_asis
   xbin_asis xdivreme_asis xint_asis xfrom_parts_asis xfrom_parts_signed_asis xfrom_parts_const_asis
-  heval_spec heval_asis heval_xasis hstep hdst pget.
+  heval_spec heval_asis heval_xasis hstep hdst pget
+  (* round 3: the bodies regenerated from the Rust source (coq/gen/RatioBodies.v) and their operator tables *)
+  gbin gxbin gdive gxdive gdivreme gxdivreme gint gxint gun gpow gmulsign gsplit gtrunc gfloor gceil ground heval_gen heval_xgen
+  gen_reduce gen_RBig_from_parts gen_Relaxed_from_parts gen_RBig_from_parts_signed gen_Relaxed_from_parts_signed
+  gen_RBig_is_zero gen_RBig_is_one gen_RBig_is_int gen_Relaxed_is_zero gen_Relaxed_is_one
+  from_float_asis from_float_spec gen_ratio_iter_is_a_module xfrom_parts_words.
